@@ -9,6 +9,8 @@ CONSTANTS Steps,          \* length of an emitted behaviour
           StartEligible,  \* start with a ready relay and an authorized maintainer
           MaxOther,       \* retargets by another maintainer
           MaxRestarts,    \* restarts of proveEpochs
+          FaultAfter,     \* queries fail only after this many steps
+          RaceBias,       \* environment changes only between the maintainer's reads and its submission
           MaxStale        \* polls answered with a stale epoch (each costs the code's 1 s sleep)
 
 VARIABLES hist, init, stale, others, restarts
@@ -50,6 +52,8 @@ GNext ==
        \/ /\ EnvChange /\ Log("EnvChange") /\ UNCHANGED <<stale, others, restarts>>
           \* readiness / authorization are withdrawn while a run is under way (the interesting moment)
           /\ (ready /\ Authorized /\ ~(ready' /\ Authorized')) => eligible
+    /\ (faults' > faults) => Len(hist) >= FaultAfter
+    /\ (RaceBias /\ (envs' > envs \/ (relayEpoch' > relayEpoch /\ pc # "submit"))) => pc \in {"plen", "headers", "submit"}
 
 GSpec == GInit /\ [][GNext]_gvars
 
